@@ -54,10 +54,14 @@ class TrioRunner(BaseRunner):
         await self._ready.wait()
 
     async def manage_payloads(self):
+        trio_run = self.asyncio_loop.run_in_executor(None, self._run_trio_blocking)
         try:
-            await self.asyncio_loop.run_in_executor(None, self._run_trio_blocking)
+            await asyncio.shield(trio_run)
         except asyncio.CancelledError:
             await self.aclose()
+            # trio runs in its own thread: wait until all its payloads have
+            # finished their cleanup before reporting this runner as cancelled
+            await asyncio.wait([trio_run])
             raise
 
     def _run_trio_blocking(self):
